@@ -184,6 +184,15 @@ def coq_prove(ctx, prop_file, theorems):
     if closed < len(theorems):
         ctx.notes.append("only %d of %d theorems closed under the global context" % (closed, len(theorems)))
         ok = False
+    if ok and ctx.tier == "thorough":
+        # independent re-check of the compiled theorem file and everything it depends on
+        mod = "LLF." + rel[:-2].replace("/", ".")
+        with Lock("coq"):
+            rc2, out2 = sh(["coqchk", "-silent", "-o", "-Q", ".", "LLF", mod], cwd=COQ, timeout=3000)
+        good = rc2 == 0 and "* Axioms: <none>" in out2 and "relying on type-in-type: <none>" in out2 \
+            and "unsafe (co)fixpoints: <none>" in out2 and "positivity is assumed: <none>" in out2
+        ctx.notes.append("coqchk %s: %s" % (mod, "ok (Axioms: <none>)" if good else "FAILED: " + out2[-600:].replace("\n", " | ")))
+        ok = ok and good
     if ok:
         ctx.proof["discharged"] = list(theorems)
     else:
